@@ -87,7 +87,23 @@ BytesBigClause(e) ==
        THEN Verdict("BytesSum", TRUE, <<0, 0>>)
   ELSE Verdict("ok", FALSE, <<0, 0>>)
 
+(* one axis of one component with an extent far above 32 bits (limbs): n = picture extent, K = total   *)
+(* scale exponent on this axis, P = padded extent (the code's subband extent one level above the top), *)
+(* lv = <<shift, extent>> per level: extent * 2^shift must equal P; lo/hi = slice bounds at level 0.   *)
+GeomBigClause(e) ==
+  LET scale == BPow2(e.K)
+      n0 == Len(e.lo) IN
+  IF BLt(e.P, e.n) \/ ~BLt(BSub(e.P, e.n), scale) THEN Verdict("SubbandDims", TRUE, <<0, 0>>)        \* smallest padding
+  ELSE IF \E i \in 1..Len(e.lv) : ~BEq(BMul(e.lv[i][2], BPow2(e.lv[i][1])), e.P)
+       THEN Verdict("SubbandDims", TRUE, <<1, 0>>)                                                   \* padded / 2^k, exactly
+  ELSE IF ~BIsZero(e.lo[1]) \/ ~BEq(e.hi[n0], e.lv[1][2])
+          \/ (\E i \in 1..(n0 - 1) : ~BEq(e.hi[i], e.lo[i + 1]))
+          \/ (\E i \in 1..n0 : BLt(e.hi[i], e.lo[i]))
+       THEN Verdict(IF e.axis = "x" THEN "PartitionX" ELSE "PartitionY", TRUE, <<0, 0>>)
+  ELSE Verdict("ok", FALSE, <<0, 0>>)
+
 Clause(e) == CASE e.ev = "geom" -> GeomClause(e)
+               [] e.ev = "geombig" -> GeomBigClause(e)
                [] e.ev = "bytes" -> BytesClause(e)
                [] e.ev = "bytesbig" -> BytesBigClause(e)
                [] OTHER -> Verdict("UnknownEvent", TRUE, <<0, 0>>)
